@@ -152,7 +152,7 @@ def run(ctx):
                         "translator tools/translate/traversals.py accounts for every token of the six iterator bodies and the four assemble_into bodies",
                         "hand model Rspirv/Model/Module.lean tied by the `trav` channel on random module values with every optional part present/absent"]
     return C.finish(ctx, level="proof", checker_cmd="lake build Rspirv.Props.C15 + #print axioms",
-                    rule="one- and two-instruction witness modules for every section pair and optional part, plus seeded random module values (0-3 functions, 0-3 blocks, each optional part independently absent); distinct non-trivial = distinct module values",
+                    rule="one- and two-instruction witness modules for every section pair and optional part, plus seeded random module values (0-3 functions, 0-3 blocks, each optional part independently absent); modules of 257/4097/5000 (thorough 66 000) functions, 4100 blocks, 300 entries per section, 22 000 instructions; assembly after 1/65530/65535/131071 existing words; distinct non-trivial = distinct module values",
                     trusted=["translator traversals.py", "hand model Module.lean + differential harness (chan/trav.rs)"])
 
 
